@@ -42,8 +42,10 @@ package blake2b
 //@ func (*digest).Sum
 //@ props C07
 //@ requires dinv(d)
-//@ fresh result
+// append: in place when the capacity allows, else a new array; the digest state is not touched
+//@ modifies sum[len(sum):len(sum)+d.size]
 //@ ensures len(result) == len(sum) + d.size
+//@ ensures (sameobj(result, sum) && off(result) == off(sum)) || newobj(result)
 //@ ensures d.size == old(d.size) && d.offset == old(d.offset)
 
 //@ func (*digest).UnmarshalBinary
